@@ -20,6 +20,92 @@ class ScheduleError(Exception):
     pass
 
 
+# ----------------------------------------------------------------------------- cooperative locks
+# A real threading.Lock inside the package would hang a cooperative scheduler (the thread that is
+# switched to blocks on a lock whose owner is parked).  Locks found in the package's modules are
+# therefore replaced by these: a contended acquire disables the thread and yields to the scheduler.
+
+CURRENT = {'sched': None}
+_ME = threading.local()
+
+
+class CoopLock:
+    reentrant = False
+
+    def __init__(self):
+        self._owner = None
+        self._count = 0
+
+    def acquire(self, blocking=True, timeout=-1):
+        me = getattr(_ME, 'index', None)
+        sched = CURRENT['sched']
+        ident = threading.get_ident()
+        while True:
+            if self._owner is None or (self.reentrant and self._owner == ident):
+                self._owner = ident
+                self._count += 1
+                return True
+            if not blocking:
+                return False
+            if sched is None or me is None:
+                raise ScheduleError('cooperative lock contended outside a scheduled thread')
+            sched.wait_for_lock(me, self)
+
+    def release(self):
+        self._count -= 1
+        if self._count <= 0:
+            self._owner, self._count = None, 0
+            sched = CURRENT['sched']
+            if sched is not None:
+                sched.lock_released(self)
+
+    def locked(self):
+        return self._owner is not None
+
+    __enter__ = acquire
+
+    def __exit__(self, *exc):
+        self.release()
+
+
+class CoopRLock(CoopLock):
+    reentrant = True
+
+
+class _ThreadingProxy:
+    """Stands in for the `threading` module inside the package: Lock/RLock are cooperative."""
+    Lock = CoopLock
+    RLock = CoopRLock
+
+    def __getattr__(self, name):
+        return getattr(threading, name)
+
+
+def cooperate_locks(pkgdir):
+    """Replace lock objects / lock factories bound in the package's module namespaces.  -> count"""
+    import _thread
+    lock_types = (type(_thread.allocate_lock()), type(threading.RLock()))
+    n = 0
+    for mod in list(sys.modules.values()):
+        f = getattr(mod, '__file__', None)
+        if not f or not os.path.abspath(f).startswith(pkgdir):
+            continue
+        for name, val in list(vars(mod).items()):
+            if isinstance(val, lock_types):
+                setattr(mod, name, CoopRLock() if isinstance(val, lock_types[1]) else CoopLock())
+                n += 1
+            elif val is threading.Lock:
+                setattr(mod, name, CoopLock)
+                n += 1
+            elif val is threading.RLock:
+                setattr(mod, name, CoopRLock)
+                n += 1
+            elif val is threading:
+                setattr(mod, name, _ThreadingProxy())
+                n += 1
+    return n
+
+
 class Sched:
     def __init__(self, bodies, choices, pkg, visible=None):
         self.bodies = bodies
@@ -34,10 +120,14 @@ class Sched:
         self.error = None
         self.pkg = pkg
         self.visible = visible   # set of (filename, function name) or None = every line is visible
+        self.blocked = {}        # thread index -> lock it waits for (cooperative locks only)
+        self.tls = threading.local()
 
     def pick(self, me, vis):
-        enabled = [i for i in range(self.n) if not self.done[i]]
+        enabled = [i for i in range(self.n) if not self.done[i] and i not in self.blocked]
         if not enabled:
+            if any(not self.done[i] for i in self.blocked):
+                self.error = 'deadlock: every unfinished thread waits for a lock'
             return None
         running = me is not None and me in enabled
         if running:
@@ -58,6 +148,24 @@ class Sched:
                 self.error = 'watchdog: thread %d never got the baton back' % me
                 raise ScheduleError(self.error)
 
+    def wait_for_lock(self, me, lock):
+        """Called by a cooperative lock that is held by another thread: `me` is disabled until the
+        lock is released; control goes to another enabled thread."""
+        self.blocked[me] = lock
+        nxt = self.pick(None, True)
+        if nxt is None:
+            self.error = self.error or 'deadlock: thread %d waits for a lock nobody can release' % me
+            self.main.release()
+            raise ScheduleError(self.error)
+        self.sems[nxt].release()
+        if not self.sems[me].acquire(timeout=WATCHDOG):
+            self.error = 'watchdog: thread %d never got the baton back' % me
+            raise ScheduleError(self.error)
+
+    def lock_released(self, lock):
+        for i in [i for i, l in self.blocked.items() if l is lock]:
+            del self.blocked[i]
+
     def tracer(self, me):
         visible = self.visible
 
@@ -75,6 +183,8 @@ class Sched:
     def worker(self, i):
         if not self.sems[i].acquire(timeout=WATCHDOG):
             return
+        CURRENT['sched'], self.tls.me = self, i
+        _ME.index = i
         sys.settrace(self.tracer(i))
         try:
             try:
@@ -85,6 +195,7 @@ class Sched:
                 self.results[i] = ('exc', type(e).__name__ + ': ' + str(e)[:80])
         finally:
             sys.settrace(None)
+            _ME.index = None
             self.done[i] = True
             nxt = self.pick(None, True)
             if nxt is None:
